@@ -6,8 +6,8 @@ const epsilon = 1e-9
 
 // 👇🏻实现的 EQ 是不正确的, 正确的实现参考 https://floating-point-gui.de/errors/comparison/
 
-func NumEQ(x, y *NumVal) bool { return math.Abs(x.V-y.V) < epsilon }
-func NumNE(x, y *NumVal) bool { return !NumEQ(x, y) } // 非有限数时 |x-y| 是 NaN, >= 比较与 < 比较同时为假
+func NumEQ(x, y *NumVal) bool { return x.V == y.V || math.Abs(x.V-y.V) < epsilon } // x.V == y.V: Inf-Inf 是 NaN, 否则无穷大不等于自身
+func NumNE(x, y *NumVal) bool { return !NumEQ(x, y) }                              // 非有限数时 |x-y| 是 NaN, >= 比较与 < 比较同时为假
 func NumLT(x, y *NumVal) bool { return x.V < y.V && NumNE(x, y) }
 func NumLE(x, y *NumVal) bool { return x.V <= y.V || NumEQ(x, y) }
 func NumGT(x, y *NumVal) bool { return x.V > y.V && NumNE(x, y) }
